@@ -149,3 +149,239 @@ Proof. reflexivity. Qed.
 Lemma wt_tuple_cons t ts v vs :
   wt t v = true -> wt (TTuple ts) (VTuple vs) = true -> wt (TTuple (t :: ts)) (VTuple (v :: vs)) = true.
 Proof. intros A B. cbn [wt] in *. cbn [wt_fields]. rewrite A, B. reflexivity. Qed.
+
+(* ---------------------------------------------------------------------- *)
+(*  Shape of well-typed values (used to show that the decoders never get   *)
+(*  stuck on a value the bincode decoder produced: SchemaProofs.dec_wt)    *)
+(* ---------------------------------------------------------------------- *)
+
+Lemma all_some_acc_total {A B} (f : A -> option B) : forall l acc,
+  Forall (fun x => exists y, f x = Some y) l -> exists r, all_some_acc f l acc = Some r.
+Proof.
+  induction l as [|x l IH]; intros acc H; cbn [all_some_acc]; [eauto|].
+  inversion H as [|? ? [y Hy] Hl]; subst. rewrite Hy. apply IH, Hl.
+Qed.
+
+Lemma all_some_total {A B} (f : A -> option B) l :
+  Forall (fun x => exists y, f x = Some y) l -> exists r, all_some f l = Some r.
+Proof. apply all_some_acc_total. Qed.
+
+Lemma forallb_true_Forall {A} (p : A -> bool) l : forallb p l = true -> Forall (fun x => p x = true) l.
+Proof. intro H. apply Forall_forall. intros x I. rewrite forallb_forall in H. auto. Qed.
+
+Lemma wt_int_inv w x : wt (TInt w) x = true -> exists n, x = VInt n.
+Proof. destruct x; cbn [wt]; try discriminate. eauto. Qed.
+
+Lemma wt_arr_Forall (p : val -> bool) : forall k l, wt_arr p k l = true -> Forall (fun x => p x = true) l.
+Proof.
+  induction k; destruct l; cbn [wt_arr]; try discriminate; [constructor|].
+  intro H. apply andb_true_iff in H. destruct H. constructor; auto.
+Qed.
+
+Lemma forallb_true_Forall {A} (p : A -> bool) l : forallb p l = true -> Forall (fun x => p x = true) l.
+Proof. intro H. apply Forall_forall. intros x I. rewrite forallb_forall in H. auto. Qed.
+
+Lemma wt_int_inv w x : wt (TInt w) x = true -> exists n, x = VInt n.
+Proof. destruct x; cbn [wt]; try discriminate. eauto. Qed.
+
+Lemma wt_arr_Forall (p : val -> bool) : forall k l, wt_arr p k l = true -> Forall (fun x => p x = true) l.
+Proof.
+  induction k; destruct l; cbn [wt_arr]; try discriminate; [constructor|].
+  intro H. apply andb_true_iff in H. destruct H. constructor; auto.
+Qed.
+
+Lemma wt_int_inv w x : wt (TInt w) x = true -> exists n, x = VInt n.
+Proof. destruct x; cbn [wt]; try discriminate. eauto. Qed.
+
+Lemma wt_arr_Forall (p : val -> bool) : forall k l, wt_arr p k l = true -> Forall (fun x => p x = true) l.
+Proof.
+  induction k; destruct l; cbn [wt_arr]; try discriminate; [constructor|].
+  intro H. apply andb_true_iff in H. destruct H. constructor; auto.
+Qed.
+
+Lemma wt_arr_Forall (p : val -> bool) : forall k l, wt_arr p k l = true -> Forall (fun x => p x = true) l.
+Proof.
+  induction k; destruct l; cbn [wt_arr]; try discriminate; [constructor|].
+  intro H. apply andb_true_iff in H. destruct H. constructor; auto.
+Qed.
+
+Lemma wt_tuple_inv ts y : wt (TTuple ts) y = true -> exists vs, y = VTuple vs /\ wt_fields wt ts vs = true.
+Proof. destruct y; cbn [wt]; try discriminate. eauto. Qed.
+
+Lemma wt_fields_cons_inv t ts vs : wt_fields wt (t :: ts) vs = true ->
+  exists v vs', vs = v :: vs' /\ wt t v = true /\ wt_fields wt ts vs' = true.
+Proof.
+  destruct vs as [|v vs']; cbn [wt_fields]; [discriminate|]. intro H.
+  apply andb_true_iff in H. destruct H. eauto.
+Qed.
+
+Lemma wt_fields_cons_inv t ts vs : wt_fields wt (t :: ts) vs = true ->
+  exists v vs', vs = v :: vs' /\ wt t v = true /\ wt_fields wt ts vs' = true.
+Proof.
+  destruct vs as [|v vs']; cbn [wt_fields]; [discriminate|]. intro H.
+  apply andb_true_iff in H. destruct H. eauto.
+Qed.
+
+Lemma wt_fields_nil_inv vs : wt_fields wt [] vs = true -> vs = [].
+Proof. destruct vs; cbn [wt_fields]; [reflexivity|discriminate]. Qed.
+
+Lemma wt_enum_inv vs y : wt (TEnum vs) y = true ->
+  exists idx p, y = VEnum idx p /\ wt_variant wt vs idx p = true.
+Proof.
+  destruct y; cbn [wt]; try discriminate. intro H. apply andb_true_iff in H. destruct H. eauto.
+Qed.
+
+Lemma wt_enum_inv vs y : wt (TEnum vs) y = true ->
+  exists idx p, y = VEnum idx p /\ wt_variant wt vs idx p = true.
+Proof.
+  destruct y; cbn [wt]; try discriminate. intro H. apply andb_true_iff in H. destruct H. eauto.
+Qed.
+
+Lemma wt_unit_inv y : wt TUnit y = true -> y = VUnit.
+Proof. destruct y; cbn [wt]; try discriminate. reflexivity. Qed.
+
+Lemma wt_bytes_inv y : wt TBytes y = true -> exists b, y = VBytes b.
+Proof. destruct y; cbn [wt]; try discriminate. eauto. Qed.
+
+Lemma wt_opt_inv t y : wt (TOpt t) y = true ->
+  y = VOpt None \/ exists x, y = VOpt (Some x) /\ wt t x = true.
+Proof. destruct y as [| | | | |[x|]| | | |]; cbn [wt]; try discriminate; eauto. Qed.
+
+Lemma morph_of_val_total y : wt asset_id_ty y = true -> exists r, morph_of_val y = Some r.
+Proof.
+  unfold asset_id_ty. intro H. apply wt_enum_inv in H. destruct H as (idx & p & -> & H).
+  cbn [wt_variant] in H. destruct (N.eqb_spec idx 0) as [->|N0].
+  - apply wt_tuple_inv in H. destruct H as (vs & -> & H).
+    apply wt_fields_cons_inv in H. destruct H as (a & vs' & -> & Ha & H).
+    apply wt_fields_cons_inv in H. destruct H as (b & vs'' & -> & Hb & H).
+    apply wt_fields_nil_inv in H. subst vs''.
+    apply wt_unit_inv in Hb. subst b.
+    apply wt_tuple_inv in Ha. destruct Ha as (l & -> & Ha).
+    apply wt_fields_cons_inv in Ha. destruct Ha as (g & l' & -> & Hg & Ha).
+    apply wt_fields_cons_inv in Ha. destruct Ha as (i & l'' & -> & Hi & Ha).
+    apply wt_fields_nil_inv in Ha. subst l''.
+    apply wt_int_inv in Hg. destruct Hg as [g' ->]. apply wt_int_inv in Hi. destruct Hi as [i' ->].
+    cbn. eauto.
+  - destruct (N.eqb_spec (N.pred idx) 0) as [E|N1]; [|discriminate].
+    assert (idx = 1) by lia. subst idx.
+    apply wt_tuple_inv in H. destruct H as (vs & -> & H).
+    apply wt_fields_cons_inv in H. destruct H as (a & vs' & -> & Ha & H).
+    apply wt_fields_nil_inv in H. subst vs'.
+    apply wt_bytes_inv in Ha. destruct Ha as [u ->]. cbn. eauto.
+Qed.
+
+Lemma wt_bytes_inv y : wt TBytes y = true -> exists b, y = VBytes b.
+Proof. destruct y; cbn [wt]; try discriminate. eauto. Qed.
+
+Lemma wt_opt_inv t y : wt (TOpt t) y = true ->
+  y = VOpt None \/ exists x, y = VOpt (Some x) /\ wt t x = true.
+Proof. destruct y as [| | | | |[x|]| | | |]; cbn [wt]; try discriminate; eauto. Qed.
+
+Lemma morph_of_val_total y : wt asset_id_ty y = true -> exists r, morph_of_val y = Some r.
+Proof.
+  unfold asset_id_ty. intro H. apply wt_enum_inv in H. destruct H as (idx & p & -> & H).
+  cbn [wt_variant] in H. destruct (N.eqb_spec idx 0) as [->|N0].
+  - apply wt_tuple_inv in H. destruct H as (vs & -> & H).
+    apply wt_fields_cons_inv in H. destruct H as (a & vs' & -> & Ha & H).
+    apply wt_fields_cons_inv in H. destruct H as (b & vs'' & -> & Hb & H).
+    apply wt_fields_nil_inv in H. subst vs''.
+    apply wt_unit_inv in Hb. subst b.
+    apply wt_tuple_inv in Ha. destruct Ha as (l & -> & Ha).
+    apply wt_fields_cons_inv in Ha. destruct Ha as (g & l' & -> & Hg & Ha).
+    apply wt_fields_cons_inv in Ha. destruct Ha as (i & l'' & -> & Hi & Ha).
+    apply wt_fields_nil_inv in Ha. subst l''.
+    apply wt_int_inv in Hg. destruct Hg as [g' ->]. apply wt_int_inv in Hi. destruct Hi as [i' ->].
+    cbn. eauto.
+  - destruct (N.eqb_spec (N.pred idx) 0) as [E|N1]; [|discriminate].
+    assert (idx = 1) by lia. subst idx.
+    apply wt_tuple_inv in H. destruct H as (vs & -> & H).
+    apply wt_fields_cons_inv in H. destruct H as (a & vs' & -> & Ha & H).
+    apply wt_fields_nil_inv in H. subst vs'.
+    apply wt_bytes_inv in Ha. destruct Ha as [u ->]. cbn. eauto.
+Qed.
+
+Lemma wt_opt_inv t y : wt (TOpt t) y = true ->
+  y = VOpt None \/ exists x, y = VOpt (Some x) /\ wt t x = true.
+Proof. destruct y as [| | | | |[x|]| | | |]; cbn [wt]; try discriminate; eauto. Qed.
+
+Lemma morph_of_val_total y : wt asset_id_ty y = true -> exists r, morph_of_val y = Some r.
+Proof.
+  unfold asset_id_ty. intro H. apply wt_enum_inv in H. destruct H as (idx & p & -> & H).
+  cbn [wt_variant] in H. destruct (N.eqb_spec idx 0) as [->|N0].
+  - apply wt_tuple_inv in H. destruct H as (vs & -> & H).
+    apply wt_fields_cons_inv in H. destruct H as (a & vs' & -> & Ha & H).
+    apply wt_fields_cons_inv in H. destruct H as (b & vs'' & -> & Hb & H).
+    apply wt_fields_nil_inv in H. subst vs''.
+    apply wt_unit_inv in Hb. subst b.
+    apply wt_tuple_inv in Ha. destruct Ha as (l & -> & Ha).
+    apply wt_fields_cons_inv in Ha. destruct Ha as (g & l' & -> & Hg & Ha).
+    apply wt_fields_cons_inv in Ha. destruct Ha as (i & l'' & -> & Hi & Ha).
+    apply wt_fields_nil_inv in Ha. subst l''.
+    apply wt_int_inv in Hg. destruct Hg as [g' ->]. apply wt_int_inv in Hi. destruct Hi as [i' ->].
+    cbn. eauto.
+  - destruct (N.eqb_spec (N.pred idx) 0) as [E|N1]; [|discriminate].
+    assert (idx = 1) by lia. subst idx.
+    apply wt_tuple_inv in H. destruct H as (vs & -> & H).
+    apply wt_fields_cons_inv in H. destruct H as (a & vs' & -> & Ha & H).
+    apply wt_fields_nil_inv in H. subst vs'.
+    apply wt_bytes_inv in Ha. destruct Ha as [u ->]. cbn. eauto.
+Qed.
+
+Lemma int_list_total w l :
+  Forall (fun x => wt (TInt w) x = true) l ->
+  exists r, all_some (fun x => match x with VInt n => Some n | _ => None end) l = Some r.
+Proof.
+  intro H. apply all_some_total. eapply Forall_impl; [|exact H].
+  intros x Hx. destruct (wt_int_inv _ _ Hx) as [n ->]. eauto.
+Qed.
+
+Lemma int_seq_total w l :
+  wt (TSeq (TInt w)) (VSeq l) = true ->
+  exists r, all_some (fun x => match x with VInt n => Some n | _ => None end) l = Some r.
+Proof.
+  cbn [wt]. intro H. apply andb_true_iff in H. destruct H as [_ H].
+  eapply int_list_total, forallb_true_Forall, H.
+Qed.
+
+Lemma int_arr_total k w l :
+  wt (TArr k (TInt w)) (VArr l) = true ->
+  exists r, all_some (fun x => match x with VInt n => Some n | _ => None end) l = Some r.
+Proof. cbn [wt]. intro H. eapply int_list_total, wt_arr_Forall, H. Qed.
+
+Lemma wt_variant_inv p : forall vs idx, wt_variant wt vs idx p = true ->
+  exists t, nth_ty idx vs = Some t /\ wt t p = true.
+Proof.
+  induction vs as [|t vs IH]; intros idx; cbn [wt_variant nth_ty]; [discriminate|].
+  destruct (idx =? 0); [eauto|apply IH].
+Qed.
+
+Lemma nth_ty_lt : forall vs idx t, nth_ty idx vs = Some t -> idx < N.of_nat (length vs).
+Proof.
+  induction vs as [|t' vs IH]; intros idx t; cbn [nth_ty length]; [discriminate|].
+  destruct (N.eqb_spec idx 0) as [->|NZ]; [lia|]. intro H. apply IH in H. lia.
+Qed.
+
+Lemma env_typed_gen {K} (eqb : K -> K -> bool) : forall (fields : list (K * ty)) vs,
+  wt_fields wt (map snd fields) vs = true ->
+  forall f t, assoc eqb f fields = Some t ->
+  exists x, assoc eqb f (combine (map fst fields) vs) = Some x /\ wt t x = true.
+Proof.
+  induction fields as [|[f' t'] fields IH]; intros vs H f t A; cbn [assoc] in A; [discriminate|].
+  cbn [map fst snd] in H. apply wt_fields_cons_inv in H. destruct H as (v & vs' & -> & Hv & H).
+  cbn [map fst combine assoc]. destruct (eqb f f').
+  - injection A as <-. eauto.
+  - eapply IH; eauto.
+Qed.
+
+Ltac norm_len L :=
+  match type of L with _ < ?e => let n := eval vm_compute in e in change e with n in L end.
+
+Ltac inv_wt := repeat match goal with
+  | H : wt (TTuple _) ?y = true |- _ => apply wt_tuple_inv in H; destruct H as (? & -> & H)
+  | H : wt_fields wt (_ :: _) ?y = true |- _ =>
+      let W := fresh "W" in apply wt_fields_cons_inv in H; destruct H as (? & ? & -> & W & H)
+  | H : wt_fields wt [] ?y = true |- _ => apply wt_fields_nil_inv in H; subst y
+  | H : wt TBytes ?y = true |- _ => apply wt_bytes_inv in H; destruct H as [? ->]
+  | H : wt (TInt _) ?y = true |- _ => apply wt_int_inv in H; destruct H as [? ->]
+  | H : wt TUnit ?y = true |- _ => apply wt_unit_inv in H; subst y
+  end.
